@@ -74,6 +74,34 @@ int main(void) {
             }
             if (!bad) printf("ok frames=%d bytes=%llu\n", frames, total);
             ZSTD_freeCCtx(reused); ZSTD_freeDCtx(dctx); free(src); free(a); free(b); free(d);
+        } else if (!strcmp(op, "ring")) {
+            /* ring <level> <wlog> <ringSize> <blockSize> <nblocks> <recordSize> <seed> : buffer-less compression (ZSTD_compressBegin_advanced / Continue / End)
+             * from a caller-owned input ring SMALLER than the window that wraps several times; records carry a tag that depends on the ring position
+             * only (same bytes at the same ring position lap after lap) and a fresh payload. The frame must decode to the stream that was fed. */
+            int level = atoi(strtok(NULL, " ")); unsigned wlog = (unsigned)atoi(strtok(NULL, " ")); size_t ringSize = (size_t)strtoull(strtok(NULL, " "), NULL, 10), blk = (size_t)strtoull(strtok(NULL, " "), NULL, 10);
+            size_t nb = (size_t)strtoull(strtok(NULL, " "), NULL, 10), rec = (size_t)strtoull(strtok(NULL, " "), NULL, 10); unsigned long long seed = strtoull(strtok(NULL, " "), NULL, 10);
+            unsigned char* ring = (unsigned char*)malloc(ringSize); unsigned char* all = (unsigned char*)malloc(nb * blk + 1); size_t cap = ZSTD_compressBound(nb * blk) + nb * 64 + 1024, pos = 0, total = 0, op_ = 0, b, r;
+            unsigned char* out = (unsigned char*)malloc(cap); unsigned char* back = (unsigned char*)malloc(nb * blk + 1); ZSTD_CCtx* c = ZSTD_createCCtx(); ZSTD_parameters prm = ZSTD_getParams(level, 0, 0);
+            prm.cParams.windowLog = wlog; prm.fParams.contentSizeFlag = 0; rs = seed;
+            r = ZSTD_compressBegin_advanced(c, NULL, 0, prm, ZSTD_CONTENTSIZE_UNKNOWN);
+            for (b = 0; b < nb && !ZSTD_isError(r); b++) {
+                size_t i;
+                if (pos + blk > ringSize) pos = 0;
+                for (i = 0; i < blk; i++) { size_t const rp = pos + i, inrec = rp % rec; unsigned char v;
+                    if (inrec < 8) v = (unsigned char)(((rp / rec) * 2654435761u) >> (8 * (inrec & 3)));       /* tag: function of the ring position only */
+                    else v = (unsigned char)rnd();
+                    ring[rp] = v; }
+                memcpy(all + total, ring + pos, blk);
+                r = ZSTD_compressContinue(c, out + op_, cap - op_, ring + pos, blk); if (ZSTD_isError(r)) break;
+                op_ += r; total += blk; pos += blk;
+            }
+            if (!ZSTD_isError(r)) { r = ZSTD_compressEnd(c, out + op_, cap - op_, NULL, 0); if (!ZSTD_isError(r)) op_ += r; }
+            if (ZSTD_isError(r)) printf("FAIL compress: %s\n", ZSTD_getErrorName(r));
+            else { size_t d = ZSTD_decompress(back, total + 1, out, op_);
+                if (ZSTD_isError(d)) printf("FAIL decode: %s\n", ZSTD_getErrorName(d));
+                else if (d != total || memcmp(back, all, total)) { size_t k = 0; while (k < d && k < total && back[k] == all[k]) k++; printf("FAIL round trip differs at byte %zu of %zu (ring %zu, block %zu)\n", k, total, ringSize, blk); }
+                else printf("ok bytes=%zu compressed=%zu\n", total, op_); }
+            ZSTD_freeCCtx(c); free(ring); free(all); free(out); free(back);
         } else if (!strcmp(op, "det")) {
             /* det <variant> <id=val,...|-> <size> <dataseed> <in-chunks csv> <dirs> <dictsize> <vseed>
              * reference = fresh heap context, roomy output; variant in:
